@@ -88,6 +88,57 @@ class RsFn:
         return out
 
 
+def canon_rs_temps(body: dict) -> int:
+    """Canonical form used by every rule (the Rust twin of pyfacts.canon_temps): an immutable `let t = E;` whose only use is as the
+    whole right-hand side of the very next statement (`x.f = t;`) or as the whole operand of the next `return t` / tail expression
+    is folded away.  Both forms evaluate E first and nothing in between."""
+    folds = 0
+    while True:
+        uses: dict[str, int] = {}
+        binds: dict[str, int] = {}
+        for n in walk(body):
+            if n.get("k") == "path":
+                uses[n["p"]] = uses.get(n["p"], 0) + 1
+            if n.get("k") == "p_ident":
+                binds[n["name"]] = binds.get(n["name"], 0) + 1
+            if n.get("k") == "macro":
+                # macro bodies are opaque token streams: a name mentioned there counts as used
+                src = n.get("src", "") or ""
+                for nm in set(__import__("re").findall(r"[A-Za-z_][A-Za-z0-9_]*", src)):
+                    uses[nm] = uses.get(nm, 0) + 2
+        done = False
+        for blk in [n for n in walk(body) if isinstance(n.get("stmts"), list)]:
+            sts = blk["stmts"]
+            for i in range(len(sts) - 1):
+                a, b = sts[i], sts[i + 1]
+                if not (a.get("k") == "let" and a.get("init") is not None and a.get("else") is None and a["pat"].get("k") == "p_ident" and not a["pat"].get("mut") and a["pat"].get("sub") is None and not a["pat"].get("ty")):
+                    continue
+                t = a["pat"]["name"]
+                if uses.get(t) != 1 or binds.get(t) != 1:
+                    continue
+                if b.get("k") != "expr_stmt" or not isinstance(b.get("e"), dict):
+                    continue
+                e = b["e"]
+                if e.get("k") == "assign" and e["r"].get("k") == "path" and e["r"]["p"] == t and not any(x.get("k") == "path" and x["p"] == t for x in walk(e["l"])):
+                    e["r"] = a["init"]
+                elif e.get("k") == "return" and isinstance(e.get("e"), dict) and e["e"].get("k") == "path" and e["e"]["p"] == t:
+                    e["e"] = a["init"]
+                elif e.get("k") == "path" and e["p"] == t and not b.get("semi") and i + 1 == len(sts) - 1:
+                    b["e"] = a["init"]
+                else:
+                    continue
+                if "src" in b:
+                    b["src"] = ""
+                del sts[i]
+                folds += 1
+                done = True
+                break
+            if done:
+                break
+        if not done:
+            return folds
+
+
 class RustProgram:
     def __init__(self, repo: Path = REPO, dirs: list[str] | None = None):
         self.repo = repo
@@ -124,6 +175,8 @@ class RustProgram:
             if k == "fn":
                 self.n_fns += 1
                 it["cfg_test"] = test
+                if it.get("body") is not None:
+                    canon_rs_temps(it["body"])
                 fn = RsFn(rel, prefix + it["name"], it, impl_ty)
                 if not test:
                     # later duplicates (cfg variants) keep first
